@@ -2,7 +2,7 @@
 convert it with the shipped TextQueryTestBackend and report what is observable through the API:
 order of SigmaCollection.rules (by title), raised exception class + phase, list of emitted queries,
 and the queries the conversion callback saw per rule (the rule's own queries)."""
-import copy, os, tempfile, shutil, uuid
+import copy, json, os, tempfile, shutil, uuid
 import yaml
 from pathlib import Path
 from sigma.collection import SigmaCollection
@@ -63,21 +63,30 @@ def as_kind(items, kind):
     return items
 
 
-def load(path, dicts, tmp, resolve=True, kind="list"):
+share_counter = [0]
+
+
+def load(path, dicts, tmp, resolve=True, kind="list", share=False):
     """the collection, loaded through one of the load paths; resolve=False defers the resolution of
     references (resolve_references=False on every loader involved) to Backend.convert; kind = the kind of
     iterable handed to merge (collections), load_ruleset (paths) and from_dicts (sized kinds only)"""
     n = len(dicts)
+    # share: the parsed documents of the case are handed over as they are (the SAME dict objects for every
+    # order of the case); otherwise every load gets its own deep copy
+    fresh = (lambda x: x) if share else copy.deepcopy
+    if path == "alt":     # one history over the same documents through different load paths
+        path = ("from_dicts", "merge", "from_yaml")[share_counter[0] % 3]
+        share_counter[0] += 1
     if path == "from_dicts":
         k = kind if kind in ("list", "tuple", "dictvalues") else "tuple"     # from_dicts needs len()
-        return SigmaCollection.from_dicts(as_kind(copy.deepcopy(dicts), k), resolve_references=resolve)
+        return SigmaCollection.from_dicts(as_kind(fresh(dicts), k), resolve_references=resolve)
     if path == "from_yaml":
         return SigmaCollection.from_yaml(yaml.safe_dump_all(dicts, sort_keys=False), resolve_references=resolve)
     if path == "merge":
         if kind == "gen":    # collections created while merge iterates
-            cols = (SigmaCollection.from_dicts([copy.deepcopy(x)], resolve_references=False, collect_filters=True) for x in dicts)
+            cols = (SigmaCollection.from_dicts([fresh(x)], resolve_references=False, collect_filters=True) for x in dicts)
         else:
-            cols = as_kind([SigmaCollection.from_dicts([copy.deepcopy(x)], resolve_references=False, collect_filters=True)
+            cols = as_kind([SigmaCollection.from_dicts([fresh(x)], resolve_references=False, collect_filters=True)
                             for x in dicts], kind)
         return SigmaCollection.merge(cols, resolve_references=resolve)
     if path == "merge2":   # two unresolved multi-document collections
@@ -135,7 +144,7 @@ def run_one(path, dicts, tmp, mode):
     resolve, conv = mode.get("resolve", True), mode.get("conv", "direct")
     first = None
     try:
-        col = load(path, dicts, tmp, resolve, mode.get("it", "list"))
+        col = load(path, dicts, tmp, resolve, mode.get("it", "list"), bool(mode.get("share")))
         if resolve:
             first = titles(col)
         if conv == "explicit":
@@ -161,8 +170,9 @@ def run_one(path, dicts, tmp, mode):
 def run_orders(case):
     """case: {"docs": [abstract documents], "perms": [[positions]], "path": load path, "mode": see run_one}.
     One result per permutation (two for mode conv == "twice"); query strings are interned in a table."""
-    docs = [build(d) for d in case["docs"]]
+    docs = [build(d) for d in case["docs"]]      # parsed once per case
     mode = case.get("mode") or {}
+    share_counter[0] = 0
     tab, idx = [], {}
 
     def intern(q):
@@ -178,11 +188,14 @@ def run_orders(case):
         for p in case["perms"]:
             sub = os.path.join(tmp, "x")
             os.makedirs(sub, exist_ok=True)
+            # the argument is observed before and after: loading must not change the caller's documents
+            before = json.dumps(docs, sort_keys=True, default=repr)
             rs = run_one(case["path"], [docs[i] for i in p], sub, mode)
+            arg_same = json.dumps(docs, sort_keys=True, default=repr) == before
             shutil.rmtree(sub, ignore_errors=True)
             out = []
             for r in rs:
-                r = dict(r)
+                r = dict(r, arg_same=arg_same)
                 if "queries" in r:
                     r["queries"] = [intern(q) for q in r["queries"]]
                     r["own"] = [[t, intern(q)] for t, q in r["own"]]
